@@ -87,7 +87,61 @@ pub fn items(args: &Args) -> Vec<Item> {
             field_item(rep, rng, args, f.kind, f.ad.as_ref())
         }));
     }
+    v.push(Item::new("flags", move |rep, _rng, _args| {
+        req(rep);
+        flags_item(rep)
+    }));
     v
+}
+
+/// The flag decoders on all 256 byte values against the documented bit layout: SW bit 7 = y is the
+/// larger root, bit 6 = infinity, both = invalid; TE bit 7 = x is the larger root; lower bits ignored.
+fn flags_item(rep: &mut Report) {
+    use ark_ec::short_weierstrass::SWFlags;
+    use ark_ec::twisted_edwards::TEFlags;
+    use ark_serialize::Flags;
+    rep.exhaustive("SWFlags::from_u8 / TEFlags::from_u8 / from_u8_remove_flags on all 256 byte values");
+    for b in 0u16..256 {
+        let b = b as u8;
+        rep.eval_enumerated(b != 0);
+        let det = |got: String| json!({"byte": format!("{b:#04x}"), "got": got});
+        let sw = rep.total("deser/sw/flags/from_u8", || det("panic".into()), || SWFlags::from_u8(b));
+        let exp = match b >> 6 {
+            0 => Some(SWFlags::YIsPositive),
+            1 => Some(SWFlags::PointAtInfinity),
+            2 => Some(SWFlags::YIsNegative),
+            _ => None,
+        };
+        if let Some(got) = sw {
+            if b >> 6 == 3 {
+                rep.class("flag conflict");
+                if got.is_some() {
+                    rep.violation("deser/sw/flags/from_u8/accepts-conflicting-flags", det(format!("{got:?}")));
+                }
+            } else if got != exp {
+                rep.violation("deser/sw/flags/from_u8/value", det(format!("{got:?}")));
+            }
+            // removing the flags clears exactly the documented bits of the pattern that was read
+            let mut v = b;
+            if let Some(Some(f)) = rep.total("deser/sw/flags/from_u8_remove_flags", || det("panic".into()), || SWFlags::from_u8_remove_flags(&mut v)) {
+                let mask = match f {
+                    SWFlags::YIsPositive => 0u8,
+                    SWFlags::PointAtInfinity => 0x40,
+                    SWFlags::YIsNegative => 0x80,
+                };
+                if Some(f) != exp || v != b & !mask {
+                    rep.violation("deser/sw/flags/from_u8_remove_flags/value", det(format!("{f:?}, byte left {v:#04x}")));
+                }
+            }
+        }
+        let te = rep.total("deser/te/flags/from_u8", || det("panic".into()), || TEFlags::from_u8(b));
+        let exp = if b >> 7 == 1 { TEFlags::XIsNegative } else { TEFlags::XIsPositive };
+        if let Some(got) = te {
+            if got != Some(exp) {
+                rep.violation("deser/te/flags/from_u8/value", det(format!("{got:?}")));
+            }
+        }
+    }
 }
 
 // ------------------------------------------------------------------------------------------------
